@@ -133,6 +133,15 @@ def build_params(spec, idnt, kw_model=None):
     for name, ed in spec.get("edits", {}).items():
         if name in p:
             p[name].set(**ed)
+    if spec.get("cp_edge") is not None and "tip position" in idnt:
+        # contact point held fixed a few samples away from the deepest
+        # point / the start of the approach curve
+        x = np.asarray(idnt["tip position"])[
+            np.asarray(idnt["segment"]) == 0]
+        if x.size:
+            fr = spec["cp_edge"]
+            p["contact_point"].set(
+                value=float(x.min() + fr * (x.max() - x.min())), vary=False)
     return p
 
 
@@ -1719,6 +1728,17 @@ class CurveEngineC09:
     def generate(self, rng, tier, index):
         cfg = curves.gen_curve_cfg(rng, allow_recorded=rng.random() < 0.3,
                                    big=rng.random() < 0.6)
+        if rng.random() < 0.15:
+            # recorded curves of poor quality (the rating must be total)
+            cfg = {"kind": "recorded", "enum": 0, "file": rng.choice(
+                ["fmt-jpk-fd_single_bad_2017-01-16_2.jpk-force",
+                 "fmt-jpk-fd_single_bad_2017-01-16_3.jpk-force",
+                 "fmt-jpk-fd_single_bad_2017-01-16_4.jpk-force",
+                 "fmt-jpk-fd_single_bad_2017-01-16_5.jpk-force",
+                 "fmt-jpk-fd_single_bad_GWAT_2017-10-17.jpk-force",
+                 "fmt-jpk-fd_single_bad_bead10_2017-04-27.jpk-force",
+                 "fmt-jpk-fd_single_bad_bead46_2017-04-20.jpk-force",
+                 "fmt-jpk-fd_single_bad_bead7_2017-04-27.jpk-force"])}
         swarm = {"faults": rng.random() < 0.4,
                  "invalid": rng.random() < 0.4,
                  "few_configs": rng.random() < 0.5}
@@ -1745,8 +1765,10 @@ class CurveEngineC09:
                                   "correct_force_offset",
                                   "correct_tip_offset"], "options": None})
             if rng.random() < 0.7:
-                ops.append({"op": "fit", "kw": gen_fit_kw(
-                    rng, nkeys=rng.choice([0, 0, 1]))})
+                kw0 = gen_fit_kw(rng, nkeys=rng.choice([0, 0, 1]))
+                if rng.random() < 0.25:
+                    kw0["segment"] = rng.choice([1, "retract"])
+                ops.append({"op": "fit", "kw": kw0})
         if rng.random() < 0.6:
             # the same request, a request that differs in exactly one entry
             # of the cache key, and the first one again
@@ -1799,6 +1821,15 @@ class CurveEngineC09:
                 if "names" in kw and rng.random() < 0.2:
                     rng.shuffle(kw["names"])
                 ops.append({"op": "rate", "kw": kw, "ts": ts})
+            elif r < 0.47:
+                # contact point fixed next to the edge of the data
+                ops.append({"op": "fit", "kw": {"params_initial": {
+                    "model": None, "edits": {},
+                    "cp_edge": rng.choice([0.001, 0.002, 0.0005, 0.999,
+                                           0.01, 1.0, 0.0])}}})
+                kw, ts = rng.choice(pool)
+                ops.append({"op": "rate", "kw": copy.deepcopy(kw),
+                            "ts": ts})
             elif r < 0.5:
                 # a multi-pass fit whose last pass has no points leaves the
                 # parameters of the first pass behind while success is
